@@ -53,7 +53,8 @@ FOREACH_GRID = [
     _fe(NC=2, PG0=0x150, PG1=0x151, SM0=0, SM1=1, PRES=0b001101, START_PG=0x200, START_SUB=0, DIR=1),      # nothing cached at or above the start page (4f8119b)
     _fe(NC=2, PG0=0x150, PG1=0x151, SM0=0, SM1=1, PRES=0b001101, START_PG=0x120, START_SUB=-1, DIR=-1),    # nothing cached at or below it, VBI_ANY_SUBNO
     _fe(NC=2, PG0=0x150, PG1=0x151, SM0=0, SM1=1, PRES=0b110011, START_PG=0x150, START_SUB=1, DIR=1),      # start page cached, several subpages
-    _fe(NC=2, PG0=0x150, PG1=0x151, SM0=0, SM1=1, PRES=0b110011, START_PG=0x151, START_SUB=-1, DIR=-1),    # VBI_ANY_SUBNO on a page with two cached subpages
+    _fe(NC=2, PG0=0x150, PG1=0x151, SM0=0, SM1=1, PRES=0b110011, START_PG=0x151, START_SUB=-1, DIR=-1, ANYSEL=0),    # VBI_ANY_SUBNO on a page with two cached subpages:
+    _fe(NC=2, PG0=0x150, PG1=0x151, SM0=0, SM1=1, PRES=0b110011, START_PG=0x151, START_SUB=-1, DIR=-1, ANYSEL=1),    # the look-up returns the first / the second
     _fe(NC=2, PG0=0x150, PG1=0x151, SM0=0, SM1=1, PRES=0b110011, START_PG=0x150, START_SUB=2, DIR=-1),     # start subpage inside the statistics window but not cached
     _fe(NC=3, PG0=0x100, PG1=0x47A, PG2=0x8FF, SM0=0, SM1=0x10, SM2=2, PRES=0b101010001, START_PG=0x8FF, START_SUB=5, DIR=1),   # first/last page number, hex page, start above the window
     _fe(NC=3, PG0=0x100, PG1=0x47A, PG2=0x8FF, SM0=0, SM1=0x10, SM2=2, PRES=0b101010001, START_PG=0x100, START_SUB=0, DIR=-1),
@@ -107,14 +108,14 @@ def obligations(tier, seed):
                   "cache.c reduced to its head and _vbi_cache_foreach_page by textual extraction from the current source"],
            assumes=["statistics invariant of cache.c (C10: seq_put_put*, subno range obligations): n_subpages == number of cached subpages of the page, "
                     "subno_min <= cached subno <= subno_max (range possibly wider)"],
-           # measured (loaded machine): 223 s / 92 MB per instance, all of it symex (2 x 0x800 iterations of the skip loop at 20-50 ms: every statistics read copies
+           # measured (loaded machine, 3 jobs): 135-270 s / <= 94 MB per instance, all of it symex (2 x 0x800 iterations of the skip loop at 20-50 ms: every statistics read copies
            # the 2048-entry array constant); 10 K variables for the solver.  Default field sensitivity: 0.5 s per iteration (each `ps->' expands all fields of the 43 KB
            # cache_network); statistics set by assignments instead of a static initialiser: reads do not fold, no verdict in 600 s
            tier="thorough", flags=["--max-field-sensitivity-array-size", "4"],
            grid=FOREACH_GRID, unwind=8, unwindset={"_vbi_cache_foreach_page.1": 40, "_vbi_cache_foreach_page.0": 2060},
            bounds="populations: <= 3 page numbers x windows of 3 subpage numbers, page numbers and windows on the grid (two neighbours below the start page = the scenario of "
                   "4f8119b, first/last page number, hex page, start page cached / not cached), presence mask of the 6..9 slots, start page and subpage (cached, inside the window "
-                  "but not cached, above it, VBI_ANY_SUBNO) on the grid, both directions; symbolic: the callback invocation that stops the walk (or none) and its result, the VBI_ANY_SUBNO choice",
+                  "but not cached, above it, VBI_ANY_SUBNO) on the grid, both directions; which cached subpage a VBI_ANY_SUBNO look-up returns: grid; symbolic: the callback invocation that stops the walk (or none) and its result",
            outside="subpage windows wider than 3 (clock pages 0x0000..0x2359: the walk then probes every number in between, 9000 look-ups per page); hash and priority lists "
                    "behind _vbi_cache_get_page (C10); symbolic presence masks (page number becomes a symbolic pointer into the 0x800 entry table: measured, see report)",
            reach=["end", "stopped", "full_cycle"], timeout=900, mem_gb=4, vin_size=32),
@@ -122,30 +123,24 @@ def obligations(tier, seed):
         # evaluation (it would catch seeded/C17-search-fwd-row-24: length handed to the matcher 24 x 41 instead of 23 x 41) and dropped again, measured: full page, fs 4 or
         # --no-array-field-sensitivity: symex 6-7 cells/s and falling, no verdict in 600 s; 2-row slice (-DLAST_ROW=3): symex 9 s, then 24.7 GB in the SSA -> SAT conversion
         # after 280 s.  The 12 KB search object (page text 1056 cells + haystack 1026 characters) is one constant after calloc; every store makes a new 1 K element array constant.
-        Ob("highlight_positions", func="h_c17_highlight",
-           desc="continuation positions left by highlight() for a match [ms, me) at ANY place of a page of NORMAL_SIZE cells: (row[0], col[0]) = first cell at or behind the end "
-                "of the match (LAST_ROW+1 / 0 when it ends with the page) - where search_page_fwd resumes; (row[1], col[1]) = the cell the match starts in - where "
-                "search_page_rev stops, so that an occurrence is returned once; page number remembered; all cell accesses inside the page",
-           encodes=["highlight"], defines={"NP": 1, "KNOWN_C17_HIGHLIGHT_ROW1": None, "LAST_ROW": 4}, patch=PATCH_ROWS, unwind=42, unwindset=dict(us, **{"highlight.0": 42, "highlight.1": 5}),
-           flags=["--max-field-sensitivity-array-size", "4"],
-           assumes=["match does not begin on a row separator", "KNOWN_C17_HIGHLIGHT_ROW1: ms > 0 (candidate defect, obligation highlight_first_cell)"],
-           bounds="page slice of text rows 1..3 (search.c compiled with -DLAST_ROW=4, the row bound of the same loops: with all 23 rows the 920 cell iterations, each with a "
-                  "symbolic early return and guarded colour stores, gave no verdict in 900 s / 700 MB); ms < me <= 123 symbolic; all cells NORMAL_SIZE (offset of a cell concrete)",
-           outside="pages with double width / size cells (offset of a cell symbolic); rows 4..23 (same loop body)",
-           reach=["end", "match_ends_with_page"], timeout=900, mem_gb=6, vin_size=32, **common),
+        # highlight_positions (h_c17_highlight with ms, me symbolic: continuation positions left by highlight() for a match anywhere on the page) is NOT registered: full
+        # page no verdict in 900 s / 700 MB, 3 row slice (-DLAST_ROW=4) out of memory at 9.4 GB after 273 s (every cell iteration has a symbolic early return and up to four
+        # guarded stores into the 1056 cell page array).  Only the candidate below (match position on the grid, earlier state symbolic) is decided.
     ] + ([
         # CANDIDATES (only with VERIF_CANDIDATES=1): refute the unchanged tree (TODO-defect-candidates.md items 8, 9)
         Ob("highlight_first_cell", func="h_c17_highlight",
-           desc="highlight_positions without the assumption ms > 0: a match beginning in row 1 column 0 leaves row[1]/col[1] stale (they are written only for cells in front "
-                "of the match), the next backward call finds the same occurrence again - NOT_FOUND never comes",
-           encodes=["highlight"], defines={"NP": 1, "LAST_ROW": 4}, patch=PATCH_ROWS, unwind=42, unwindset=dict(us, **{"highlight.0": 42, "highlight.1": 5}),
-           flags=["--max-field-sensitivity-array-size", "4"], bounds="as highlight_positions", reach=["end", "match_in_first_cell"], timeout=900, mem_gb=6, vin_size=32, **common),
+           desc="continuation positions left by highlight() for a match that begins in row 1 column 0 (match [0, 1) and [0, 41) on the grid), from ANY earlier value of "
+                "row[1]/col[1]: they must become row 1 / column 0 (the cell the match starts in); refuted: they are written only for cells in front of the match and stay "
+                "stale, the next backward call searches the whole page again and finds the same occurrence - NOT_FOUND never comes",
+           encodes=["highlight"], defines={"NP": 1, "HL_MS": 0}, grid=[dict(HL_ME=1), dict(HL_ME=41)], patch=PATCH, unwind=42,
+           unwindset=dict(us, **{"highlight.0": 42, "highlight.1": 25}), flags=["--max-field-sensitivity-array-size", "4"],
+           bounds="match position concrete, earlier continuation state symbolic; all cells NORMAL_SIZE", reach=["end", "match_in_first_cell"], timeout=900, mem_gb=6, vin_size=32, **common),
         Ob("foreach_real_start_outside_window", harness="h_c17_foreach.c", func="h_c17_foreach",
            desc="foreach_real with the start subpage OUTSIDE the subpage range of a start page that has cached subpages ahead: forward from subpage 0 of a page caching subpages "
                 "1..3 (what vbi_search_new(pgno, VBI_ANY_SUBNO) does for every multi-subpage page), backward from 0x3F7E: the skip loop leaves the page instead of entering "
                 "its range, its subpages are presented only after the wrap - where search_page_fwd/_rev stop before searching them",
            encodes=["_vbi_cache_foreach_page"], patch={"src/cache.c": _extract_foreach}, flags=["--max-field-sensitivity-array-size", "4"],
-           grid=[_fe(NC=2, PG0=0x150, PG1=0x151, SM0=0, SM1=1, PRES=0b011001, START_PG=0x151, START_SUB=0, DIR=1),
+           grid=[_fe(NC=2, PG0=0x150, PG1=0x151, SM0=0, SM1=2, PRES=0b011001, START_PG=0x151, START_SUB=0, DIR=1),     # subpages 2, 3 cached, walk starts at subpage 0
                  _fe(NC=2, PG0=0x150, PG1=0x151, SM0=0, SM1=1, PRES=0b011001, START_PG=0x151, START_SUB=0x3F7E, DIR=-1)],
            unwind=8, unwindset={"_vbi_cache_foreach_page.1": 40, "_vbi_cache_foreach_page.0": 2060}, bounds="2 populations",
            reach=["end"], timeout=900, mem_gb=4, vin_size=32),
